@@ -834,8 +834,23 @@ impl<A: Flavor> World<A> {
                 }
             }
             Op::Flush => {
-                let r = guard("flush", "C05", || self.a().flush())?;
-                ensure!(r.is_ok(), "C05", "flush-failed", "flush() failed: {:?}", r);
+                // rotate through the flush family; none of them may fail or change anything observable
+                let a = self.a();
+                let pre = self.snap();
+                let (al, d) = (a.allocated(), a.data_offset());
+                let which = ix % 7;
+                let r = guard("flush*", "C05", || match which {
+                    0 => a.flush(),
+                    1 => a.flush_async(),
+                    2 => a.flush_range(0, al),
+                    3 => a.flush_async_range(d.min(al), al - d.min(al)),
+                    4 => a.flush_header(),
+                    5 => a.flush_async_header(),
+                    _ => a.flush_header_and_range(d.min(al), al - d.min(al)),
+                })?;
+                ensure!(r.is_ok(), "C05", "flush-failed", "flush variant {which} failed: {:?}", r);
+                let post = self.snap();
+                ensure!(pre == post, "C05", "flush-side-effect", "flush variant {which} changed state {pre:?} -> {post:?}");
                 res = "ok".into();
             }
             Op::Reopen { mode, cap, create } => {
@@ -908,9 +923,11 @@ impl<A: Flavor> World<A> {
         let post = self.snap();
         // fresh-space arithmetic in u64 (reference)
         let align_up = |x: u64, a: u64| (x + a - 1) & !(a - 1);
+        // a zero-sized T that needs no alignment (or a request for no bytes at all) is a plain byte request
+        let plain_zst = tsize == 0 && (talign == 1 || n == 0);
         let (fresh_start, fresh_end) = match kind {
             HKind::Bytes => (pre.allocated as u64, pre.allocated as u64 + n as u64),
-            HKind::Aligned if tsize == 0 => (pre.allocated as u64, pre.allocated as u64 + n as u64),
+            HKind::Aligned if plain_zst => (pre.allocated as u64, pre.allocated as u64 + n as u64),
             HKind::Aligned => {
                 let s = align_up(pre.allocated as u64, talign as u64);
                 (s, s + tsize as u64 + n as u64)
@@ -923,7 +940,7 @@ impl<A: Flavor> World<A> {
         let fresh_fits = fresh_end <= pre.capacity as u64;
         let (need_min, need_max): (u64, u64) = match kind {
             HKind::Bytes => (n as u64, n as u64),
-            HKind::Aligned if tsize == 0 => (n as u64, n as u64),
+            HKind::Aligned if plain_zst => (n as u64, n as u64),
             HKind::Aligned => (tsize as u64 + n as u64, tsize as u64 + talign as u64 - 1 + n as u64),
             HKind::Typed => (tsize as u64, tsize as u64 + talign as u64 - 1),
         };
@@ -995,9 +1012,8 @@ impl<A: Flavor> World<A> {
                 match kind {
                     HKind::Bytes => ensure!(cap == n as usize, "C03", "bytes-capacity", "alloc_bytes({n}) returned capacity {cap}"),
                     HKind::Aligned => {
-                        if tsize > 0 {
-                            ensure!(off % talign == 0, "C03", "aligned-offset", "alloc_aligned_bytes::<{}>({n}) offset {off} not a multiple of {talign}", t.name);
-                        }
+                        // also for zero-sized T with an alignment: the statement quantifies over sizes 0..=64
+                        ensure!(off % talign == 0, "C03", "aligned-offset", "alloc_aligned_bytes::<{}>({n}) offset {off} not a multiple of {talign}", t.name);
                         ensure!(cap as u64 >= tsize as u64 + n as u64, "C03", "aligned-capacity", "alloc_aligned_bytes::<{}>({n}) capacity {cap} < {}", t.name, tsize as u64 + n as u64);
                     }
                     HKind::Typed => {
